@@ -47,93 +47,6 @@ theorem separators_ok :
     (sconsts.find? (·.1 == "DataSuffix")).map (·.2) = some ".dat" := by
   decide
 
-/-! ### Commit structure (C10, C11, C12) -/
-
-def items (k : String) : List (String × String × String) := commitLoop.filter (·.1 == k)
-
-/-- the commit marker is assigned in exactly one place, under `i == lastIndex`, before the write -/
-theorem commit_marker_last_only :
-    items "status" = [("status", "i == lastIndex", "entry.Meta.status = Committed")] ∧
-    (commitLoop.findIdx? (·.1 == "status")).isSome ∧
-    (commitLoop.findIdx? (·.1 == "status")).getD 99 < (commitLoop.findIdx? (·.1 == "write")).getD 0 := by
-  decide
-
-/-- one unconditional write per record; the next step that is not its error return is the sync,
-guarded by exactly `SyncEnable`; offsets advance only afterwards -/
-theorem commit_sync_follows_write :
-    items "write" = [("write", "", "tx.db.ActiveFile.WriteAt(entry.Encode(), tx.db.ActiveFile.writeOff)")] ∧
-    items "sync" = [("sync", "tx.db.opt.SyncEnable", "tx.db.ActiveFile.rwManager.Sync()")] ∧
-    (((commitLoop.dropWhile (·.1 != "write")).map (·.1)).take 4) = ["write", "return", "sync", "return"] ∧
-    (commitLoop.findIdx? (·.1 == "sync")).getD 99 < (commitLoop.findIdx? (·.1 == "advance")).getD 0 := by
-  decide
-
-/-- the transaction id is recorded as committed only for the last record and only after its write -/
-theorem commit_ids_after_last_write :
-    items "committedIds" = [("committedIds", "i == lastIndex && !(tx.db.opt.EntryIdxMode == HintBPTSparseIdxMode)", "tx.db.committedTxIds[txID]")] ∧
-    (commitLoop.findIdx? (·.1 == "write")).getD 99 < (commitLoop.findIdx? (·.1 == "committedIds")).getD 0 := by
-  decide
-
-/-- the size tests: an entry larger than the segment is refused before anything else happens to it;
-rotation exactly when the record does not fit in the active file -/
-theorem commit_size_tests :
-    commitLoop.head? = some ("return", "entrySize > tx.db.opt.SegmentSize", "return ErrKeyAndValSize") ∧
-    items "rotate" = [("rotate", "tx.db.ActiveFile.ActualSize+entrySize > tx.db.opt.SegmentSize", "tx.rotateActiveFile()")] := by
-  decide
-
-/-- KV records are indexed inside the loop (this is what makes finding D-COMMIT-PARTIAL possible) -/
-theorem commit_indexes_kv_in_loop :
-    items "indexKV" = [("indexKV", "entry.Meta.ds == DataStructureBPTree", "tx.buildBPTreeIdx(bucket, entry, e, off, countFlag)")] := by
-  decide
-
-/-! ### Open / mode check (C22) -/
-
-theorem mode_refusals_ok :
-    modeRefusals = ["db.opt.EntryIdxMode != HintBPTSparseIdxMode && hasDataFlag && hasBptDirFlag",
-                    "db.opt.EntryIdxMode == HintBPTSparseIdxMode && hasBptDirFlag == false && hasDataFlag == true"] := by
-  decide
-
-/-- the mode check runs before any of the sparse-mode directories is created and before indexes are built -/
-theorem open_check_first :
-    openOrder = ["mkdir db.opt.Dir", "check", "mkdir bptRootIdxDir", "mkdir bptTxIDIdxDir", "mkdir bucketMetaDir", "buildIndexes"] := by
-  decide
-
-/-! ### Closed checks (C20, C12) -/
-
-/-- exported Tx methods that dereference `tx.db` without first calling `checkTxIsClosed`:
-`Commit`/`Rollback` test `tx.db == nil` themselves (the extractor's path-insensitive rule does not
-see that). The three `Find*OnDisk` helpers used to be on this list and panicked on a finished
-transaction (finding D-PANIC-ONDISK, fixed in /repo 3a8ee2e). -/
-def closedExceptions : List String := ["Commit", "Rollback"]
-
-theorem closed_checks_ok :
-    (closedChecks.filter (fun p => !p.2)).map (·.1) = closedExceptions := by
-  decide
-
-/-! ### Codec layouts (C21) -/
-
-def fieldsOf (l : List (String × Nat × Nat × Nat)) : List (Nat × Nat × Nat) := l.map fun (_, a, b, w) => (a, b, w)
-
-/-- encoder and decoder agree on every header field of the three codecs -/
-theorem layouts_agree :
-    fieldsOf entryEnc = fieldsOf entryDec ∧ fieldsOf metaEnc = fieldsOf metaDec ∧ fieldsOf rootEnc = fieldsOf rootDec := by
-  decide
-
-/-- every field's slice has the width of its integer type, fields are disjoint and cover the header -/
-def wf (l : List (String × Nat × Nat × Nat)) (size : Nat) : Bool :=
-  l.all (fun (_, a, b, w) => a + w == b && b ≤ size) &&
-  (l.map fun (_, _, _, w) => w).sum == size &&
-  l.all fun (n1, a1, b1, _) => l.all fun (n2, a2, b2, _) => n1 == n2 || b1 ≤ a2 || b2 ≤ a1
-
-theorem layouts_wf : wf entryEnc 42 = true ∧ wf metaEnc 12 = true ∧ wf rootEnc 28 = true := by
-  decide
-
-/-- the checksum covers everything after the crc field, then the payloads in storage order -/
-theorem crc_coverage_ok :
-    entryCrcEnc = ["buf[4:]"] ∧ entryCrcDec = ["buf[4:]", "e.Meta.bucket", "e.Key", "e.Value"] ∧
-    metaCrcEnc = ["buf[4:]"] ∧ metaCrcDec = ["buf[4:]", "bm.start", "bm.end"] ∧
-    rootCrcEnc = ["buf[4:]"] ∧ rootCrcDec = ["buf[4:]", "bri.start", "bri.end"] := by
-  decide
-
 /-- **`isFilterEntry`, regenerated.** The model's `isFilter` (which records Merge never rewrites) is the
 kernel that `tools/extract` regenerates from the SSA of `DB.isFilterEntry`, with every flag load bound to the
 record's flag and the call of `IsExpired` bound to the model's `isExpired` (itself the regenerated `IsExpired`
